@@ -133,7 +133,7 @@ func (fr *Frame) writerWrite(x *ssa.Call, b Val, st *State, rch Term) Val {
 	if k, ok := litInt(b.C[1]); ok && k <= 16 {
 		t := out
 		for i := int64(0); i < k; i++ {
-			t = store(t, add(olen, itoa(i)), sel(heap, add(b.C[0], itoa(i))))
+			t = store(t, add(olen, itoa(i)), vc.sel(heap, add(b.C[0], itoa(i))))
 		}
 		nf := vc.fresh("#out~f", "(Array Int Int)")
 		vc.set(st, "#out", ite(okT, t, nf))
